@@ -330,3 +330,7 @@ def run(ctx):
     r2_r3_cache(ctx)
     r4_classification(ctx)
     r5_read_loop(ctx)
+
+
+from .selftest import for_families as _ff  # noqa: E402
+selftest = _ff(['gate', 'loop'])
